@@ -7,12 +7,14 @@ package main
 
 import (
 	"fmt"
+	"os"
 	"sort"
 	"strings"
 	"testing"
 	"time"
 
 	"github.com/tinode/chat/server/auth"
+	"github.com/tinode/chat/server/zzverif/vfev"
 	"github.com/tinode/chat/server/zzverif/vsched"
 )
 
@@ -212,6 +214,21 @@ func vfPresExec(hist []int, last bool) vfXResult {
 			marks[n] = len(c.frames)
 		}
 		p.apply(op)
+		if os.Getenv("VERIF_DEBUG") != "" {
+			fmt.Println("  debug: after", op.Name)
+			for _, n := range []string{"a1", "a2", "b1"} {
+				c := p.cl[n]
+				fmt.Printf("  debug:   %s bg=%v attached-me=%v frames:\n", n, c.sess != nil && c.sess.background, p.attached(n, p.meOf(n[:1])))
+				for _, f := range c.frames[min(marks[n], len(c.frames)):] {
+					fmt.Println("  debug:      ", vfTrunc(vfFrameString(f), 220))
+				}
+			}
+			for _, u := range []string{"a", "b"} {
+				if t := vfTopic(p.meOf(u)); t != nil {
+					fmt.Printf("  debug:   me-%s perSubs=%v\n", u, t.perSubs)
+				}
+			}
+		}
 		if i != len(hist)-1 {
 			continue
 		}
@@ -368,3 +385,150 @@ func init() {
 }
 
 func TestVerifC10Pres(t *testing.T) { vfXSearch(t, "C10", "pres", "pres") }
+
+
+// ---- races: attach / detach of 'me' by both partners at the same time ----------------------------
+
+type vfPresRaceObs struct {
+	Violations []vfXViolation
+	Outcome    string
+}
+
+// believes: what session n has been told about subj: the last {pres on|off} on me, else the online
+// flag of the {meta sub} it got when attaching.
+func (p *vfPresWorld) believes(n, subj string) (bool, bool) {
+	c := p.cl[n]
+	src := p.users[subj].id()
+	val, known := false, false
+	for _, f := range c.frames {
+		m := f.Msg
+		if m.Meta != nil && m.Meta.Topic == "me" {
+			for _, sb := range m.Meta.Sub {
+				if sb.Topic == src {
+					val, known = sb.Online, true
+				}
+			}
+		}
+		if pr := m.Pres; pr != nil && pr.Topic == "me" && pr.Src == src && (pr.What == "on" || pr.What == "off") {
+			val, known = pr.What == "on", true
+		}
+	}
+	return val, known
+}
+
+func vfPresRace(name string, bound [2]int, pre func(p *vfPresWorld), race func(p *vfPresWorld)) vfScenario {
+	return vfScenario{
+		Name: name, Bound: bound, Exec: vsched.Config{YieldAtomics: false, MaxSteps: 400000},
+		Body: func() any {
+			p := vfPresSetup()
+			for _, c := range p.cl {
+				c.frames = nil
+				c.seen = 0
+			}
+			if pre != nil {
+				pre(p)
+			}
+			vsched.Zone(true)
+			race(p)
+			vsched.Quiesce()
+			vsched.Zone(false)
+			vsched.Advance(30 * time.Second)
+			o := &vfPresRaceObs{}
+			var outs []string
+			for _, obs := range []string{"a1", "a2", "b1"} {
+				ou := obs[:1]
+				subj := "b"
+				if ou == "b" {
+					subj = "a"
+				}
+				if !p.attached(obs, p.meOf(ou)) {
+					continue
+				}
+				truth := p.online(subj)
+				bel, known := p.believes(obs, subj)
+				outs = append(outs, fmt.Sprintf("%s:%v/%v", obs, bel, truth))
+				if !known && !truth {
+					continue
+				}
+				if bel != truth {
+					o.Violations = append(o.Violations, vfXViolation{Key: "C10:presence-not-converged:race:" + name,
+						What: fmt.Sprintf("scenario %s: after everything settled %s believes %s online=%v (known=%v), truth online=%v", name, obs, subj, bel, known, truth)})
+				}
+			}
+			for _, f := range p.cl["c1"].frames {
+				if pr := f.Msg.Pres; pr != nil && (pr.Src == p.users["a"].id() || pr.Src == p.users["b"].id()) {
+					o.Violations = append(o.Violations, vfXViolation{Key: "C10:presence-leak-to-stranger:race", What: "stranger received " + vfFrameString(f)})
+				}
+			}
+			for _, tn := range vfLoadedTopics() {
+				t := vfTopic(tn)
+				cnt := map[string]int{}
+				for s, pssd := range t.sessions {
+					if !s.background {
+						cnt[pssd.uid.UserId()]++
+					}
+				}
+				for uid, pud := range t.perUser {
+					if pud.online != cnt[uid.UserId()] || pud.online < 0 {
+						o.Violations = append(o.Violations, vfXViolation{Key: "C10:online-count:race:" + vfTopicKind(tn), What: fmt.Sprintf("scenario %s: topic %s counts %d online sessions, attached %d", name, vfTopicKind(tn), pud.online, cnt[uid.UserId()])})
+					}
+				}
+			}
+			o.Outcome = strings.Join(outs, ",")
+			return o
+		},
+		Judge:   func(res vsched.Result, o any) []vfXViolation { return o.(*vfPresRaceObs).Violations },
+		Outcome: func(res vsched.Result, o any) string { if o == nil { return "" }; return o.(*vfPresRaceObs).Outcome },
+		Canon:   func(res vsched.Result, o any) string { if o == nil { return "" }; x := o.(*vfPresRaceObs); return x.Outcome + fmt.Sprint(len(x.Violations)) },
+	}
+}
+
+const vfSubMe = `{"sub":{"id":"%s","topic":"me","get":{"what":"sub"}}}`
+
+func vfC10Scenarios() []vfScenario {
+	post := func(p *vfPresWorld, sess, format string) {
+		c := p.cl[sess]
+		c.Post(fmt.Sprintf(format, c.id()))
+	}
+	return []vfScenario{
+		vfPresRace("subme-subme", [2]int{2, 3}, nil, func(p *vfPresWorld) {
+			post(p, "a1", vfSubMe)
+			post(p, "b1", vfSubMe)
+		}),
+		vfPresRace("leaveme-subme", [2]int{2, 3}, func(p *vfPresWorld) {
+			p.cl["a1"].Req(`{"sub":{"id":"$ID","topic":"me","get":{"what":"sub"}}}`)
+		}, func(p *vfPresWorld) {
+			post(p, "a1", `{"leave":{"id":"%s","topic":"me"}}`)
+			post(p, "b1", vfSubMe)
+		}),
+		vfPresRace("two-sessions-leave-subme", [2]int{1, 2}, func(p *vfPresWorld) {
+			p.cl["a1"].Req(`{"sub":{"id":"$ID","topic":"me","get":{"what":"sub"}}}`)
+			p.cl["a2"].Req(`{"sub":{"id":"$ID","topic":"me","get":{"what":"sub"}}}`)
+		}, func(p *vfPresWorld) {
+			post(p, "a1", `{"leave":{"id":"%s","topic":"me"}}`)
+			post(p, "a2", `{"leave":{"id":"%s","topic":"me"}}`)
+			post(p, "b1", vfSubMe)
+		}),
+		vfPresRace("disconnect-subme", [2]int{1, 2}, func(p *vfPresWorld) {
+			p.cl["a1"].Req(`{"sub":{"id":"$ID","topic":"me","get":{"what":"sub"}}}`)
+			p.cl["b1"].Req(`{"sub":{"id":"$ID","topic":"me","get":{"what":"sub"}}}`)
+		}, func(p *vfPresWorld) {
+			p.cl["a1"].Disconnect()
+			post(p, "a2", vfSubMe)
+		}),
+		vfPresRace("unload-vs-subme", [2]int{1, 2}, func(p *vfPresWorld) {
+			p.cl["b1"].Req(`{"sub":{"id":"$ID","topic":"me","get":{"what":"sub"}}}`)
+			p.cl["a1"].Req(`{"sub":{"id":"$ID","topic":"me","get":{"what":"sub"}}}`)
+			p.cl["a1"].Req(`{"leave":{"id":"$ID","topic":"me"}}`)
+		}, func(p *vfPresWorld) {
+			vsched.Go("clock", func() { vsched.FireNext(time.Minute) })
+			post(p, "a2", vfSubMe)
+		}),
+	}
+}
+
+func TestVerifC10PresRaces(t *testing.T) {
+	r := vfev.New("C10", "presraces")
+	defer r.Finish()
+	vfRunScenarios(r, vfC10Scenarios())
+}
